@@ -104,7 +104,7 @@ def eval_adverb_each_index(f, a, op, backend):
     return f(backend.kg_asarray([0, a]))
 
 
-def eval_adverb_each2(f, a, b):
+def eval_adverb_each2(f, a, b, backend=None):
     """
 
         a f'b                                                   [Each-2]
@@ -129,7 +129,11 @@ def eval_adverb_each2(f, a, b):
     b = [KGChar(x) for x in b] if isinstance(b,str) else b
     r = [f(x,y) for x,y in zip(a,b)]
     # a list of characters is a string; any other results stay a list
-    return ''.join(r) if all(is_char(u) for u in r) else bknp.asarray(r)
+    if all(is_char(u) for u in r):
+        return ''.join(r)
+    # kg_asarray keeps ragged and mixed results a list (np.asarray raised on [[1 3] [2 4 5]]
+    # and turned ["ab" 1] into ["ab" "1"])
+    return backend.kg_asarray(r) if backend is not None else bknp.asarray(r)
 
 
 def eval_adverb_each_left(f, a, b, backend):
@@ -454,7 +458,7 @@ def get_adverb_fn(klong, s, arity):
     backend = klong._backend
 
     if s == "'":
-        return eval_adverb_each2 if arity == 2 else lambda f,a,op: eval_adverb_each(f,a,op,backend)
+        return (lambda f,a,b: eval_adverb_each2(f,a,b,backend)) if arity == 2 else lambda f,a,op: eval_adverb_each(f,a,op,backend)
     elif s == '/':
         return eval_adverb_over_neutral if arity == 2 else lambda f,a,op: eval_adverb_over(f,a,op,backend)
     elif s == '\\':
